@@ -58,6 +58,7 @@ func (s *State) clone() *State {
 }
 
 type Engine struct {
+	loopNodes map[*ssa.Function][]ast.Node
 	w            *World
 	sc           *Script
 	structSorts  map[string]string
